@@ -747,6 +747,16 @@ theorem callConn_restated : ∀ (items : List CallItem) (g : G),
     | valOk => unfold callConn; exact ih g (fun a' b' hm => hall a' b' (by simp [hm]))
     | valBad => unfold callConn; rfl
 
+
+theorem reloadConn_inv : ∀ (pairs : List (Nat × Nat)) (g : G), Inv g → Inv (reloadConn g pairs) := by
+  intro pairs
+  induction pairs with
+  | nil => intro g h; exact h
+  | cons p ps ih =>
+    intro g h
+    simp only [reloadConn, List.foldl_cons]
+    exact ih _ (moveChan_inv g p.1 p.2 h)
+
 theorem step_inv (g : G) (op : Op) (h : Inv g) : Inv (step g op).1 := by
   cases op with
   | connect a bs => exact connect_inv g a bs h
@@ -761,6 +771,7 @@ theorem step_inv (g : G) (op : Op) (h : Inv g) : Inv (step g op).1 := by
   | restoreInsert a b => exact restoreInsert_inv g a b h
   | moveChan o n => exact moveChan_inv g o n h
   | pullAttempt keys ps => simp only [step]; rw [pullAttempt_eq]; exact h
+  | reload pairs => exact reloadConn_inv pairs g h
   | call known items =>
     simp only [step, callOp]
     split
